@@ -59,6 +59,14 @@ pub fn k_zoned_fixed_add_days(s: i64, ns: i32, off: i32, neg: bool, w: i64, d: i
     let sp = mkspan_cal(neg, 0, 0, w, d)?;
     Some(z.checked_add(sp).ok().map(|r| (zts(&r), r.offset().seconds())))
 }
+/// the split of a span into its calendar part and its time part, as `Zoned::checked_add` does it
+pub fn k_span_split(neg: bool, mo: i64, d: i64, h: i64, ms: i64, us: i64, ns: i64) -> Option<((SpanCal, SpanTime, i8), (SpanCal, SpanTime, i8))> {
+    let sp = Span::new().try_months(mo).ok()?.try_days(d).ok()?.try_hours(h).ok()?.try_milliseconds(ms).ok()?.try_microseconds(us).ok()?.try_nanoseconds(ns).ok()?;
+    let sp = if neg { sp.negate() } else { sp };
+    let t = f::span_only_time(sp);
+    let c = f::span_only_calendar(sp);
+    Some(((span_cal(&t), span_time(&t), t.signum()), (span_cal(&c), span_time(&c), c.signum())))
+}
 /// a span mixing a calendar unit (days) with time units: days on the wall clock (24 h each in a fixed zone),
 /// then the time units as exact elapsed time
 pub fn k_zoned_fixed_add_mixed(s: i64, ns: i32, off: i32, neg: bool, d: i64, h: i64, us: i64, nanos: i64) -> Option<Option<(TS, i32)>> {
